@@ -191,7 +191,7 @@ impl WriteCircuitBreaker {
         self.state
             .store(CircuitState::Open as u8, Ordering::Release);
         #[cfg(feature = "verif-hooks")]
-        crate::verif::sched_point();
+        crate::verif::sched_point("open:after-state-change");
         // Reset half-open counters
         self.half_open_call_count.store(0, Ordering::Release);
         self.half_open_success_count.store(0, Ordering::Release);
@@ -211,7 +211,7 @@ impl WriteCircuitBreaker {
             )
             .is_ok();
         #[cfg(feature = "verif-hooks")]
-        crate::verif::sched_point();
+        crate::verif::sched_point("half-open:after-state-change");
         if transitioned {
             // Reset half-open counters (only by the thread that made the transition, or the
             // calls other threads have been admitted for since would be forgotten)
@@ -225,6 +225,8 @@ impl WriteCircuitBreaker {
     fn transition_to_closed(&self) {
         self.state
             .store(CircuitState::Closed as u8, Ordering::Release);
+        #[cfg(feature = "verif-hooks")]
+        crate::verif::sched_point("closed:after-state-change");
         // Reset all counters
         self.failure_count.store(0, Ordering::Release);
         self.half_open_call_count.store(0, Ordering::Release);
